@@ -16,6 +16,7 @@ import (
 	"runtime"
 	"sort"
 	"strconv"
+	"strings"
 	"sync"
 	"sync/atomic"
 	"time"
@@ -682,7 +683,7 @@ func run(c *vf.Ctx) {
 
 	nCases := c.N(400, 12000)
 	chunk := c.N(25, 100)
-	par := 6
+	par := 4
 	tmp := vf.TempDir("c24")
 	defer os.RemoveAll(tmp)
 
@@ -704,6 +705,8 @@ func run(c *vf.Ctx) {
 	var tot caseStats
 	var sumTimeout, sumFlush int64
 	racePrefixes := []string{}
+	crashSeen := map[int]bool{}
+	var crashTails, crashInPkg []string
 	jobCh := make(chan int)
 	var wg sync.WaitGroup
 	for p := 0; p < par; p++ {
@@ -760,8 +763,19 @@ func run(c *vf.Ctx) {
 							why = "worker timed out"
 						} else if code != 0 {
 							why = "worker exited " + strconv.Itoa(code) + " before the case"
-							tail := tailFile(logPath, 1500)
+							tail := tailFile(logPath, 6000)
 							c.Logf("worker job %d exit %d: %s", ji, code, tail)
+							mu.Lock()
+							if !crashSeen[ji] {
+								crashSeen[ji] = true
+								if len(crashTails) < 4 {
+									crashTails = append(crashTails, fmt.Sprintf("job %d exit %d: %s", ji, code, tail))
+								}
+								if (strings.Contains(tail, "panic:") || strings.Contains(tail, "fatal error:")) && strings.Contains(tail, anchoredPkg) {
+									crashInPkg = append(crashInPkg, tail)
+								}
+							}
+							mu.Unlock()
 						}
 						c.Inconclusive(why)
 					}
@@ -780,6 +794,12 @@ func run(c *vf.Ctx) {
 	wg.Wait()
 
 	// race reports of all -race children
+	for _, t := range crashInPkg {
+		c.Violation("worker:crash-in-queue", "the worker process died with a panic / fatal error whose stack is inside the anchored package", t)
+	}
+	if len(crashTails) > 0 {
+		c.Extra("worker_failures", crashTails)
+	}
 	var anchoredRaces, otherRaces, raceBlocks int
 	var otherList []string
 	for _, p := range racePrefixes {
